@@ -1,5 +1,3 @@
 package sim
 
-func (s *Sim) Query(o *Op) (string, []string)  { return "reject:notimpl", nil }
-func (s *Sim) Export(o *Op) (string, []string) { return "reject:notimpl", nil }
-func (r *Runner) Reimport(o *Op) (string, error) { return "reject:notimpl", nil }
+// all former stubs are implemented: Query in query.go, Export and Reimport in genesis.go
